@@ -78,6 +78,8 @@ class DataSet:
 
             while from_pos > 0:
                 value_end_pos = line.find(")", from_pos)
+                if value_end_pos == -1:
+                    raise ValueError("Missing value end character ')'.")
                 values.append(DataSetValue.parse(line[from_pos + 1 : value_end_pos]))
                 from_pos = value_end_pos + 1
 
